@@ -14,7 +14,7 @@ RULE = ("S2 (every regime of mismatch; win, draw and loss of the SAME game side 
         "sole-first never loses mu, sole-last never gains; 2 teams: loss <= draw <= win, prior between loss and win, a draw does "
         "not raise the stronger / lower the weaker team beyond the TM draw-margin term; every strict order x all C(n,2) "
         "exchanges with a better-placed team (PL and full pairing): never lowers mu; identical teams: mu ordered by place; "
-        "configs K0 and K1-K4, K9, K10; non-trivial = clause instance whose two sides differ (posterior != prior, or the two "
+        "configs K0 and K1-K4, K9, K10, and K5 (limit_sigma) on S2, P2, T3; non-trivial = clause instance whose two sides differ (posterior != prior, or the two "
         "outcomes give different posteriors)")
 ASSUMPTIONS = ["tolerance R4 (1e-9 of scale) on every inequality", "values between alphabet points not covered"]
 
@@ -151,6 +151,7 @@ def plan(ctx):
     out = [("S2", "K0"), ("P2", "K0"), ("T3", "K0"), ("T4", "K0"), ("P3", "K0")]
     for K in ("K1", "K2", "K3", "K4", "K9", "K10"):
         out += [("S2", K), ("T3|V6", K)]
+    out += [("S2", "K5"), ("P2", "K5"), ("T3|V6", "K5")]  # limit_sigma in force: the clamp must not touch mu
     if ctx.thorough:
         out += [("T5", "K0")]
         for K in ("K1", "K2", "K3", "K4", "K9", "K10"):
